@@ -181,6 +181,7 @@ func TestC06(t *testing.T) {
 // ---- C06 (process level): the real make / chop / cache / tar -i commands against a store that fails one request ----
 
 func runC06Proc(c *fw.Case) {
+	c.Probe("process-level-case (real desync binary)")
 	cmdKind := c.Draw(4, "proc.cmd")
 	names := []string{"chop", "cache", "make", "tar -i"}
 	n := []string{"1", "2", "4"}[c.Draw(3, "proc.n")]
